@@ -8,6 +8,7 @@ CONSTANTS
   BugC = "manifest_before_segments"
   FixC = "none"
   RemoveC = FALSE
+  GenC = FALSE
 VIEW View
 INVARIANT TypeOK
 INVARIANT NoStuck
